@@ -1,6 +1,7 @@
 """C15 — AsyncReader is cancellation-safe: no frame lost, duplicated or torn."""
 import itertools
 from verifkit.runner import Stream
+from verifkit import runner
 from verifkit import gen
 from verifkit import frameio as F
 
@@ -16,6 +17,7 @@ async_resync poll_good async_alloc offset_le_four async_oversize_rejected
 set_max_len_frame_in_flight pollLoop_readVal_max""".split()] + [
     "Minicbor.Frame.pollLoop_spec", "Minicbor.Frame.pollLoop_script", "Minicbor.Frame.absorb_settle", "Minicbor.Frame.frame_inj"]
 PACKAGES = ["hio"]
+DEBUG_TWINS = True
 RULE = ("aread scenarios on the real AsyncReader over a scripted futures_io::AsyncRead, futures polled by hand with a no-op waker and dropped "
         "where the schedule says so: streams <=10 bytes x ALL compositions into delivery sizes x every placement of <=2 Pendings (incl. "
         "consecutive) x every keep/drop decision at each Pending; one transient error (Other / Interrupted) at every position x Pending "
